@@ -232,6 +232,10 @@ func (r *Renderer) args(t *Term) []string {
 }
 
 func (r *Renderer) refBool(t *Term, a []string) (string, bool) {
+	if t.Sort.Kind != KBool && t.Op != "ite" {
+		// "and" / "or" are also the names of the bitwise integer operators
+		return "", false
+	}
 	switch t.Op {
 	case "not":
 		return r.def(t, "(not "+a[0]+")"), true
